@@ -1459,13 +1459,14 @@ func c18RaceWindow(dry []c18Event, at int, k string) bool {
 	return false
 }
 
-// foreign adds 1-2 foreign operations to the (single) run of sp, placed at calls of the
-// interference-free execution dry; returns whether one of them falls into a race window.
-func (g *c18Gen) foreign(sp *c18Spec, dry []c18Event, hist func(string)) (race bool) {
+// foreign adds the operations of 1-3 other actors (each at its own instant, each of its own kind) to run ri of
+// sp, placed at calls of the interference-free execution dry (the run's own calls); returns whether one of
+// them falls into a race window.
+func (g *c18Gen) foreign(sp *c18Spec, ri int, dry []c18Event, hist func(string)) (race bool) {
 	if len(dry) < 4 {
 		return false
 	}
-	run := &sp.Runs[0]
+	run := &sp.Runs[ri]
 	var sites, crts, staples, all []string
 	seen := map[string]bool{}
 	for _, it := range sp.Items {
@@ -1487,9 +1488,14 @@ func (g *c18Gen) foreign(sp *c18Spec, dry []c18Event, hist func(string)) (race b
 			staples = append(staples, it.Key)
 		}
 	}
-	// one kind of operation at one instant (the generator's race-window label and the monitor's
-	// baseline are defined for that; several writers at several instants multiply windows, not kinds)
-	for q := 0; q < 1; q++ {
+	// several actors at several instants (two times out of five): the monitor judges a deletion by what the
+	// storage held after any of the others' operations (Check.states_since_touch)
+	nAct := 1
+	if g.r.Intn(5) < 2 {
+		nAct = 2 + g.r.Intn(2)
+	}
+	hist(fmt.Sprintf("foreign_actors=%d", nAct))
+	for q := 0; q < nAct; q++ {
 		// aim at the calls around Deletes half of the time (that is where the windows are)
 		at := 1 + g.r.Intn(len(dry)-2)
 		if g.r.Intn(3) != 0 {
@@ -1552,9 +1558,11 @@ func (g *c18Gen) foreign(sp *c18Spec, dry []c18Event, hist func(string)) (race b
 			}
 			add(true, c18Item{Key: k})
 		case "account":
-			add(false, c18Item{Key: "acme/le-dir/users/new@example.com/new.key", Kind: "raw", Text: "@key"})
+			add(false, c18Item{Key: fmt.Sprintf("acme/le-dir/users/new%d@example.com/new.key", q), Kind: "raw", Text: "@key"})
 		}
 	}
+	// the wrapper applies the operations of one instant in the order given; keep instants in time order
+	sort.SliceStable(run.Fops, func(i, j int) bool { return run.Fops[i].At < run.Fops[j].At })
 	return race
 }
 
@@ -1961,11 +1969,20 @@ func runC18(tier string, seed int64, outdir string, replay string) error {
 				}
 			}
 		}
-		if len(sp.Runs) == 1 && g.r.Intn(3) == 0 {
-			// other actors write during the cleaning: place them at calls of the interference-free execution
+		if !sp.Concurrent && len(sp.Runs) <= 2 && g.r.Intn(3) == 0 {
+			// other actors write during a cleaning (the only one, or one of two that follow each other): place
+			// them at calls of the interference-free execution of that cleaning
 			dry := mat.execute(sp)
-			g.foreign(&sp, dry.trace, w.Hist)
-			if len(sp.Runs[0].Fops) > 0 {
+			ri := g.r.Intn(len(sp.Runs))
+			var own []c18Event
+			for _, ev := range dry.trace {
+				if ev.Tid == ri {
+					own = append(own, ev)
+				}
+			}
+			g.foreign(&sp, ri, own, w.Hist)
+			if len(sp.Runs[ri].Fops) > 0 {
+				w.Hist(fmt.Sprintf("foreign_in_run=%d/%d", ri+1, len(sp.Runs)))
 				one("generated_foreign", sp)
 				continue
 			}
